@@ -164,7 +164,7 @@ def scenarios(tier):
 def main(tier):
     rep = common.Report(PROP, tier)
     jobs = scenarios(tier)
-    deadline = time.time() + (200 if tier == 'quick' else 3000)
+    deadline = time.time() + (200 if tier == 'quick' else 1500)
     res = common.parallel_map(common.explore_job, [j[:4] for j in jobs],
                               deadline=deadline)
     for klass in ('bundled', 'generated'):
